@@ -578,7 +578,43 @@ func bounds(c *core.Ctx) int {
 	return 3
 }
 
+// idsAcrossProcesses: "no two ids are equal" also holds between broker processes (a restarted broker, another node):
+// three processes each create their first three ids for one ssid within the same second; all nine must differ.
+func idsAcrossProcesses(c *core.Ctx) {
+	sec := time.Now().Unix() - 300
+	seen := map[string]int{}
+	for p := 0; p < 3; p++ {
+		o := c.SpawnWorker([]string{"idproc", fmt.Sprint(sec)}, nil, 2*time.Minute, 0)
+		n := 0
+		for _, l := range strings.Split(o.Stdout, "\n") {
+			if strings.HasPrefix(l, "ID ") {
+				n++
+				id := strings.TrimPrefix(l, "ID ")
+				if q, dup := seen[id]; dup {
+					c.ViolatePart("b", "b:ids:equal-across-processes", fmt.Sprintf("process %d and process %d both created id %s for the same ssid within one second", q, p, id), map[string]interface{}{"part": "idproc"})
+					return
+				}
+				seen[id] = p
+			}
+		}
+		if n != 3 {
+			core.HarnessFailure("C19 idproc worker printed %d ids: %s %s", n, o.Stdout, o.Stderr)
+		}
+		c.Add("evaluations", 3)
+	}
+}
+
 func worker(c *core.Ctx, args []string) {
+	if len(args) == 2 && args[0] == "idproc" {
+		var sec int64
+		fmt.Sscan(args[1], &sec)
+		for i := 0; i < 3; i++ {
+			id := message.NewID(message.Ssid{1, 2, 3})
+			id.SetTime(sec)
+			fmt.Printf("ID %x\n", []byte(id))
+		}
+		return
+	}
 	// args: scenario bound shard nshards
 	var bound, shard, n int
 	fmt.Sscan(args[1], &bound)
@@ -613,6 +649,7 @@ func run(c *core.Ctx) {
 	partB(c)
 	partD(c)
 	partF(c)
+	idsAcrossProcesses(c)
 	evals := c.Count("evaluations")
 	c.Set("evaluations", evals)
 	c.Set("distinct_nontrivial", c.DistinctCount("nontrivial"))
@@ -663,6 +700,8 @@ func replay(c *core.Ctx, raw json.RawMessage) {
 		var sc splitCase
 		json.Unmarshal(raw, &sc)
 		checkSplit(c, sc)
+	case "idproc":
+		idsAcrossProcesses(c)
 	case "f":
 		var cc chunkCase
 		json.Unmarshal(raw, &cc)
